@@ -82,12 +82,12 @@ def main(rest):
     if rest[0] == "all":
         # every design-phase mutant and every seeded change against its property; results are
         # written to /verif/selftest_results.json (committed, referenced by DESIGN.md section 8.4).
-        # `selftest all -j N` runs N of them side by side (each check is itself parallel).
+        # `selftest all j N` runs N of them side by side (each check is itself parallel).
         import threading
         from concurrent.futures import ThreadPoolExecutor
         jobs = 1
-        if "-j" in rest:
-            jobs = int(rest[rest.index("-j") + 1])
+        if "j" in rest:
+            jobs = int(rest[rest.index("j") + 1])
         items = []
         idx = json.load(open(os.path.join(core.VERIF, "mutants", "index.json")))
         for m in idx:
